@@ -16,6 +16,9 @@ Trace == ndJsonDeserialize(IOEnv.VERIF_TRACE)
 VARIABLES l, failed
 vars == <<l, failed>>
 Cl(cond, name) == IF cond THEN {name} ELSE {}
+\* the verdict list is bounded, but per clause set: a flood of one kind of failure (a recorded finding, say) never crowds
+\* out a failure of another kind
+Full(fl, bad) == Len(fl) >= 6000 \/ Cardinality({i \in DOMAIN fl : fl[i].clauses = bad}) >= 400
 
 Judge(e) ==
   \* explanation test for the known finding: the generic runtime validates UTF-8 in proto3 string
@@ -38,7 +41,7 @@ Init == l = 1 /\ failed = <<>>
 Step == /\ l <= Len(Trace)
         /\ LET e == Trace[l]
                bad == Judge(e)
-           IN failed' = IF bad = {} \/ Len(failed) >= 2000 THEN failed
+           IN failed' = IF bad = {} \/ Full(failed, bad) THEN failed
                         ELSE Append(failed, [case |-> e.case, line |-> l, clauses |-> bad])
         /\ l' = l + 1
 Spec == Init /\ [][Step]_vars
